@@ -61,7 +61,7 @@ CLAIMED = {
          "Histories following the VM's calling protocol (push/pop/call/ret/set/capture/clone with and without recycled target/switch/destroy/reset, frame widths across every 128-slot boundary) are checked after every step against plain Go slices; programs with 100-400 locals and recursion to 24000 are checked against closed forms and the reference.",
          "trusted: the protocol read off vm.go; recursion explored to a stated depth, not to memory exhaustion"),
  "C19": ("property-based differential testing of error reports: printed RUNTIME ERROR reports parsed and compared with the reference's report model",
-         "For every failing statement of fault-injected and typed sessions the printed report must name the class, mark exactly one instruction whose opcode belongs to the failing operation, list the operand values it saw, and list per coroutine (failing one up to main) the active calls innermost first with call-site names and current parameter values.",
+         "For every failing statement of fault-injected and typed sessions the printed report must name the class, mark exactly one instruction whose opcode belongs to the failing operation, show in every listing line the disassembly its instruction word decodes to, list the operand values it saw, and list per coroutine (failing one up to main) the active calls innermost first with call-site names and current parameter values.",
          "trusted: the report model in harness/ref; accumulator-form instructions compared on the explicit operand only; reports with ambiguous printed values (line breaks, ';', 'arg[') not compared"),
 }
 
